@@ -251,7 +251,8 @@ def configs(quick):
         ('2x2-wrap', {'threads': [raw(GDI, GDI), ka(2)], 'nsn0': 62, 's0': WRAP - 2, 'auth': 0}),
         ('2x(2,1)-mixed', {'threads': [raw(SEL, GDI, target=0x82), ka(1)], 'nsn0': 63, 's0': 1000, 'auth': 4}),
         ('3x1', {'threads': [raw(SEL, target=0x82), msg(1), ka(1)], 'nsn0': 63, 's0': WRAP - 1, 'auth': 0}),
-        ('3x1-same', {'threads': [raw(GDI), msg(1), ka(1)], 'nsn0': 63, 's0': WRAP - 1, 'auth': 0}),
+        ('3x1-same', {'threads': [raw(GDI), msg(1), ka(1)], 'nsn0': 63, 's0': WRAP - 1, 'auth': 0,
+                      'quick_bound': 1}),      # identical requests; full bound in the thorough tier
         # the BMC sends an unrelated frame (stale rq_seq) before the reply to the listed datagrams;
         # max_retries >= 1 lets the code read past it (the branch repaired by F4)
         ('2x2-stale', {'threads': [raw(GDI, GDI), ka(2)], 'nsn0': 63, 's0': 9, 'auth': 0,
@@ -327,16 +328,18 @@ def run(ctx):
     for name, cfg in configs(q):
         cap = (5000 if q else 12000)
         k = 0
-        for obs in enumerate_schedules(cfg, bound, cap=cap):
-            consider(name, cfg, obs, False, 'systematic, <= %d pre-emptions' % bound)
+        b = min(bound, cfg.get('quick_bound', bound)) if q else bound
+        cfg = {kk: v for kk, v in cfg.items() if kk != 'quick_bound'}
+        for obs in enumerate_schedules(cfg, b, cap=cap):
+            consider(name, cfg, obs, False, 'systematic, <= %d pre-emptions' % b)
             k += 1
-        per_cfg[name] = {'schedules': k, 'capped': k >= cap}
+        per_cfg[name] = {'schedules': k, 'capped': k >= cap, 'preemption_bound': b}
     # random schedules at source-line granularity
     nrand = 200 if q else 3000
     cfgs = configs(False)
     for i in range(nrand):
         name, cfg = cfgs[rng.randrange(len(cfgs))]
-        cfg = dict(cfg)
+        cfg = {kk: v for kk, v in cfg.items() if kk != 'quick_bound'}
         cfg['nsn0'] = rng.choice([0, 1, 31, 62, 63])
         cfg['s0'] = rng.choice([0, 1, 5, 123456, WRAP - 3, WRAP - 1, WRAP])
         nt = len(cfg['threads'])
